@@ -238,12 +238,25 @@ Definition cflow_text (d : nat) : list N :=
   91%N :: flat_map (fun _ => [32; 58]%N) (repeat tt d) ++ 32%N :: repeat 125%N d ++ [93%N].
 
 (* ---------- (6) the oracle run on the IMPLEMENTATION's tokens and events (extracted; vlib/p_c11.py) ---------- *)
+(* the CONSTANT bounds of Proofs/DepthNest.v / DepthText.v, stated with the limits generated from the Rust source
+   (Gen/Consts.v): the scanner never has more than NEST_TOK_BOUND collection-start tokens open at once — at most
+   BLOCK_NESTING_MAX block collections, FLOW_LEVEL_MAX '[' / '{', FLOW_LEVEL_MAX synthetic FlowMappingStart of single pairs
+   (one per flow level), and FLOW_LEVEL_MAX + 1 simple keys whose ':' may still insert a start token in front of what is
+   queued (the allowance of the proof) — and the events nest at most twice as deep *)
+Definition NEST_TOK_BOUND : nat := N.to_nat Consts.BLOCK_NESTING_MAX + 3 * N.to_nat Consts.FLOW_LEVEL_MAX + 1.
+Definition NEST_BOUND : nat := 2 * NEST_TOK_BOUND.
+
 (* (theorem (h): the flow level of the token stream is within the limit,
     theorem (g): the events nest at most twice as deep as the tokens,
-    theorem (i): ... at most twice as deep as the limit + the starts the flow level does not count) *)
-Definition c11_oracle (toks : list token) (evs : list event) : bool * bool * bool :=
+    theorem (i): ... at most twice as deep as the limit + the starts the flow level does not count,
+    theorem (h'): the nesting of the token stream is within NEST_TOK_BOUND,
+    theorem (k): the events nest at most NEST_BOUND deep) *)
+Definition c11_oracle (toks : list token) (evs : list event) : bool * bool * bool * bool * bool :=
   (Nat.leb (tok_flow_max toks) (N.to_nat Consts.FLOW_LEVEL_MAX),
    Nat.leb (max_nesting evs) (2 * tok_nest_max toks),
-   Nat.leb (max_nesting evs) (2 * (N.to_nat Consts.FLOW_LEVEL_MAX + other_openers toks))).
+   Nat.leb (max_nesting evs) (2 * (N.to_nat Consts.FLOW_LEVEL_MAX + other_openers toks)),
+   Nat.leb (tok_nest_max toks) NEST_TOK_BOUND,
+   Nat.leb (max_nesting evs) NEST_BOUND).
 Definition c11_measures (toks : list token) (evs : list event) : N * N * N * N :=
   (N.of_nat (tok_flow_max toks), N.of_nat (tok_nest_max toks), N.of_nat (other_openers toks), N.of_nat (max_nesting evs)).
+Definition c11_bounds : N * N := (N.of_nat NEST_TOK_BOUND, N.of_nat NEST_BOUND).
